@@ -187,6 +187,65 @@ def Counter.bytes (c : Counter) : List Nat :=
 
 def Counter.value (c : Counter) : Nat := c.high * 4294967296 + c.low
 
+/-! ### the nonce inputs of the CCM configuration (nRF52 binding, `radio_hardware_with_crypto_support`) -/
+
+/-- `receive_encrypted_`, `transmit_encrypted_`, `receive_counter_`, `transmit_counter_` and the part of
+    `ccm_data_struct` the hardware builds the nonce from: packet counter `data[16..21)`, direction
+    `data[24]`, IV `data[25..33)` (nRF52832 product specification, "CCM data structure") -/
+structure Ccm where
+  rxEnc : Bool
+  txEnc : Bool
+  rxC   : Counter
+  txC   : Counter
+  ctr   : List Nat
+  dir   : Nat
+  iv    : List Nat
+deriving Repr, DecidableEq
+
+def Ccm.init : Ccm :=
+  { rxEnc := false, txEnc := false, rxC := .zero, txC := .zero, ctr := [0, 0, 0, 0, 0], dir := 0,
+    iv := [0, 0, 0, 0, 0, 0, 0, 0] }
+
+-- src: nrf52.cpp setup_encryption + setup_ccm_data_structure  (`IV = ivm | ivs << 32` written little
+-- endian: the four octets of IVm as received, then the four octets of IVs; packet counter octets cleared)
+def Ccm.setup (h : Ccm) (ivm ivs : List Nat) : Ccm := { h with ctr := [0, 0, 0, 0, 0], iv := ivm ++ ivs }
+
+-- src: nrf52.cpp radio_hardware_with_crypto_support::configure_encryption
+def Ccm.configure (h : Ccm) (rx tx : Bool) : Ccm :=
+  let h1 := if rx && tx then { h with txC := .zero } else h
+  let h2 := if rx && !tx then { h1 with rxC := .zero } else h1
+  let h3 := if !rx && !tx then { h2 with ctr := [0, 0, 0, 0, 0], dir := 0, iv := [0, 0, 0, 0, 0, 0, 0, 0] } else h2
+  { h3 with rxEnc := rx, txEnc := tx }
+
+/-- what the CCM builds the nonce from when key stream generation is started: packet counter octets,
+    direction, IV -/
+abbrev Nonce := List Nat × Nat × List Nat
+
+-- src: nrf52.cpp configure_receive_train  (the `if ( receive_encrypted_ )` part; direction 1 = central to peripheral)
+def Ccm.receiveTrain (h : Ccm) : Ccm × Option Nonce :=
+  if h.rxEnc then ({ h with ctr := h.rxC.bytes, dir := 1 }, some (h.rxC.bytes, 1, h.iv)) else (h, none)
+
+-- src: nrf52.cpp configure_final_transmit  (`transmit_encrypted_ && transmit_data.buffer[ 1 ] != 0`)
+def Ccm.finalTransmit (h : Ccm) (len : Nat) : Ccm × Option Nonce :=
+  if h.txEnc && len != 0 then ({ h with ctr := h.txC.bytes, dir := 0 }, some (h.txC.bytes, 0, h.iv)) else (h, none)
+
+-- src: nrf52.hpp increment_receive_packet_counter / increment_transmit_packet_counter
+def Ccm.incRx (h : Ccm) : Ccm := { h with rxC := h.rxC.increment }
+def Ccm.incTx (h : Ccm) : Ccm := { h with txC := h.txC.increment }
+
+/-- `counter::increment` applied `n` times -/
+def Counter.incN : Nat → Counter → Counter
+  | 0, c => c
+  | n + 1, c => Counter.incN n c.increment
+
+/-- the 13 octet CCM nonce of Core spec Vol 6 Part E 2.1 as the CCM forms it from its configuration:
+    octets 0..4 the 39 bit packet counter with the direction bit as most significant bit of octet 4,
+    octets 5..12 the IV -/
+def specNonce (n : Nonce) : List Nat :=
+  match n.1 with
+  | [b0, b1, b2, b3, b4] => [b0, b1, b2, b3, b4 % 128 + 128 * (n.2.1 % 2)] ++ n.2.2
+  | _ => []
+
 /-! ### specification central and the closed system -/
 
 /-- Central side of Core spec Vol 6 Part B 4.5.9: `sn`/`nesn` (transmitSeqNum / nextExpectedSeqNum),
